@@ -146,6 +146,15 @@ def run(ctx):
     ok = some == [(g, True)] and none == [(g, False)] and inc is not None and inc[0] == "(*p1.next_row_index Add! c:1).0" and inc[1] == [(g, True)]
     ix = [c for c in symcalls(prog, f, S) if c[1].endswith("Index<I>>::index")]
     ok = ok and len(ix) == 1 and ix[0][2] == ["&*p1.rows", "*p1.next_row_index"]
+    if not ok:
+        # equivalent form: `let row = self.rows.get(self.next_row_index)?;` — Some exactly for an index below the length
+        gets = [c for c in symcalls(prog, f, S) if re.search(r"(<impl \[T\]>|Vec::<T, A>)::get$", c[1]) and "p1.rows" in c[2][0] and c[2][1] == "*p1.next_row_index"]
+        if len(gets) == 1 and not ix:
+            br = [c for c in symcalls(prog, f, S) if c[1].endswith("Option<T> as std::ops::Try>::branch") and "::get(" in c[2][0] and "p1.rows" in c[2][0]]
+            if len(br) == 1:
+                gS = ("discr(call@%d:<std::option::Option<T> as std::ops::Try>::branch)" % br[0][0], ("==", 0))
+                fr = [c for c in symcalls(prog, f, S) if c[1].endswith("from_residual")]
+                ok = some == [gS] and none is None and len(fr) == 1 and inc is not None and inc[0] == "(*p1.next_row_index Add! c:1).0" and inc[1] == [gS]
     ctx.check(ok, R, "Rows::next", "", "Rows::next does not yield rows[next_row_index] exactly while next_row_index < rows.len(), advancing by one", f.loc(), fn=f.name, key=R + "|next")
     f = prog.fn("msi::<internal::table::Rows<'a> as std::iter::Iterator>::size_hint")
     S = Sym(prog, f)
